@@ -19,7 +19,8 @@ CENSUS = {
             '~+Peers::mark_fetching_txs_timeout', '~+Peers::fetching_idle_headers', '~+Peers::fetching_idle_txs',
             '~Peers::get_headers_to_fetch', '~Peers::get_txs_to_fetch', '~+Peers::add_fetch_header' + D, '~+Peers::add_fetch_tx' + D,
             '+FetchInfo::new_add', '~+Peers::remove_fetching_header' + D, '~+Peers::remove_fetching_transaction' + D],
-    'C18': ['+PendingTxs::push', '~+PendingTxs::fetch_transaction_hashes_for_broadcast'],
+    'C18': ['+PendingTxs::push', '~+PendingTxs::fetch_transaction_hashes_for_broadcast', '<ChainRpcImpl as ChainRpc>::estimate_cycles',
+            'verify_tx', '~resolve_tx', 'ContextualTransactionVerifier::verify'],
     'C01': ['check_if_response_is_matched', 'check_continuous_headers', 'verify_mmr_proof',
             '<HeaderView as HeaderUtils>::is_parent_of', '<VerifiableHeader as VerifiableHeaderPatch>::patched_is_valid',
             '<VerifiableHeader as VerifiableHeaderPatch>::checked_total_difficulty',
